@@ -123,6 +123,12 @@ def main() -> int:
     cases, stats = flow_inputs(rng, thorough)
     if not thorough:
         cases = [c for c in cases if c["origin"] != "exhaustive"][::2] + [c for c in cases if c["origin"] == "exhaustive"][::6]
+    # the recorded witness of the listed finding C09-entry-for-unprinted-jump-in-empty-block: if (a || b || c) { .. } else { } before a loop head
+    mk = lambda ops: {"routines": [[dict(o, off=i, pseudo=False) for i, o in enumerate(ops)]], "infos": [{"kind": "GENERIC", "target": "i:0", "coro": ""}], "origin": "finding-witness"}
+    br = lambda k, t: {"op": "Branch", "ps": ["c:$V", f"i:{k}"], "tgt": t}
+    pl = lambda n: {"op": n, "ps": [], "tgt": -1}
+    cases.append(mk([{"op": "BranchVariable", "ps": ["c:$S", "i:10", "c:$W"], "tgt": 4}, br(2, 4), br(3, 4), {"op": "Jump", "ps": [], "tgt": 7},
+                     pl("a"), pl("b"), pl("c"), pl("d"), {"op": "Jump", "ps": [], "tgt": 7}]))
     frng = random.Random(99)
     cases += [with_multiline(c, frng) for c in cases if c["origin"] in ("compiled", "special", "compiled-seeded")][::3]
     # inputs of the shapes on which the structured decompiler is known to print other code than the input (C02's
@@ -153,7 +159,12 @@ def main() -> int:
     for i, kind, k in validate(rep, recs, "main"):
         r = recs[i]
         e = r["entries"][k - 1] if 0 < k <= len(r["entries"]) else None
+        lines = r["text"].split("\n")
+        # shape fact for the findings file (not a verdict): the entry lies in a block that was printed empty - `... {` directly followed by `}`
+        empty_block = bool(e and 0 < e["line"] < len(lines) and lines[e["line"]].strip().startswith("}") and lines[e["line"] - 1].rstrip().endswith("{")
+                           and e["col"] > len(lines[e["line"]]) - len(lines[e["line"]].lstrip(" ")))
         rep.violation("decompile-map:" + kind, {"which": r["which"], "input": fmt(r["inp"]), "text": r["text"][:2500], "entry": e, "origin": r["origin"],
+                                                "empty_block": empty_block,
                                                 "tags": shapes.tags(r["inp"]),
                                                 "op": next((o["op"] for rt in r["inp"] for o in rt if e and o["off"] == e["off"]), None)})
     good = [r for r in recs if r["entries"] and r["matches"] and len(r["entries"]) >= 3][:4]
